@@ -80,8 +80,6 @@ func (f *SQLFormatter) formatStatement(stmt ast.Statement) error {
 		return f.formatCreateIndex(s)
 	case *ast.AlterTableStatement:
 		return f.formatAlterTable(s)
-	case *ast.AlterStatement:
-		return f.formatAlterStatement(s)
 	case *ast.DropStatement:
 		return f.formatDrop(s)
 	case *ast.CreateViewStatement:
